@@ -441,7 +441,7 @@ class Engine(object):
                     if isinstance(x, z3.BitVecRef) and x.size() == 8 * n:
                         return x if w == 8 * n else z3.Extract(w - 1, 0, x)
                     if z3.is_fp(x) and x.sort().ebits() + x.sort().sbits() == 8 * n:
-                        return z3.fpToIEEEBV(x)
+                        return fp_bits(x)
                     if x.__class__ in (Ptr, FnPtr) and n == 8:
                         return PInt(x)
             if any(c is None for c in cells):
@@ -508,7 +508,7 @@ class Engine(object):
             if isinstance(x, z3.BitVecRef):
                 return z3.Extract(8 * i + 7, 8 * i, x) if x.size() > 8 else x
             if z3.is_fp(x):
-                return z3.Extract(8 * i + 7, 8 * i, z3.fpToIEEEBV(x))
+                return z3.Extract(8 * i + 7, 8 * i, fp_bits(x))
             # numeric address bits are not modelled: an unknown byte (over-approximation, noted)
             st = s.cur
             s.ubnote(st, 'byte of a stored pointer used as data (treated as an unknown byte)')
@@ -867,6 +867,13 @@ class Engine(object):
 
 
 # ====================================================================== instruction handlers
+def fp_bits(x):
+    """IEEE bit pattern of an FP term; a value that was only moved (bitcast from bits) keeps its exact bits, NaN payload included"""
+    if z3.is_app_of(x, z3.Z3_OP_FPA_TO_FP) and x.num_args() == 1 and isinstance(x.arg(0), z3.BitVecRef):
+        return x.arg(0)
+    return z3.fpToIEEEBV(x)
+
+
 def _jump(st, fr, bi, moves):
     if moves:
         regs = fr.regs
@@ -1272,7 +1279,7 @@ def h_bitcast_fi(e, st, fr, ins):
     else:                        # float -> int
         n = 8 if f == 'double' else 4
         if c is float: r = int.from_bytes(struct.pack('<d' if n == 8 else '<f', v), 'little')
-        else: r = z3.fpToIEEEBV(v)
+        else: r = fp_bits(v)
     fr.regs[ins[1]] = r
 
 
